@@ -314,12 +314,13 @@ def renderFile (f : ScFile) : Str :=
      (classes.flatMap renderClass) ++ (enums.flatMap renderEnum) ++ s%"}\n"
    | none => [])
 
-/-- `Scala::generate_types` as facts.  `data.consts` is never looked at (so the `todo!()` of
-`write_const` is unreachable), nothing is sorted, `write_imports` (`unimplemented!()`) is never
-called. -/
+/-- `Scala::generate_types` as facts.  An empty package and any annotated const are io errors
+(since the `fix:` commits 6e067e7 / bf55905; before them the former panicked and consts were
+silently dropped); nothing is sorted, `write_imports` (`unimplemented!()`) is never called. -/
 def fileFacts (cfg : Cfg) (d : ParsedData) : Outcome ScFile :=
   -- `begin_file`
-  if cfg.package.isEmpty then .panic s%"scala.rs:131" else
+  if cfg.package.isEmpty then .err (.formatError s%"PackageRequired") else
+  if !d.consts.isEmpty then .err (.formatError s%"ConstUnsupported") else
   let unsigned := unsignedIntegerUsed d
   (if unsigned || !d.aliases.isEmpty then
      (Outcome.mapM' (aliasFacts cfg) d.aliases).bind fun as => .ok (some (unsigned, as))
